@@ -14,7 +14,7 @@ import (
 func init() {
 	registerRule("visit", 12, "every sub-schema position of Schema is passed to the schema expander and the result stored back", ruleVisit)
 	registerRule("containers", 16, "every holder of refable elements is passed to the matching expander and by-value copies are written back", ruleContainers)
-	registerRule("ref-clear", 4, "after a completed dereference every nil-error return has cleared the holder's $ref", ruleRefClear)
+	registerRule("ref-clear", 7, "after a completed dereference every nil-error return has cleared the holder's $ref", ruleRefClear)
 	registerRule("ref-store", 8, "every $ref kept in the output is rewritten against the root frame and is control-dependent on a cycle, skip-schemas or the empty-root guard", ruleRefStore)
 }
 
